@@ -45,6 +45,14 @@ add("C02", "exploration",
     "one-cell path for start==end; also through SolvedMaze.from_targeted_lattice_maze and on structured mazes up to 20x20.",
     "Small-scope: larger grids only via structured families.", "5/C02")
 
+add("C08", "model_checking",
+    "explicit-state BFS over filter sequences on the real filter implementations, reference-model agreement on every transition",
+    "From crafted start datasets (increasing/equal lengths, exact duplicates at first/last/adjacent/non-adjacent positions, near-duplicates at Hamming "
+    "distance 1-2, all-failing, single; each with and without per-maze metadata) every sequence of filters up to depth 2 (thorough 3) over an alphabet of all "
+    "built-in filters with boundary arguments and custom predicates is executed; each transition is compared with a list-comprehension reference, the "
+    "input is checked untouched, provenance and counts are checked; from_config(cfg with filters) is compared with the hand-applied chain.",
+    "State key drops the append-only provenance log (checked per transition); grid 3, <=6 mazes.", "5/C08")
+
 PLANNED = {}
 
 
